@@ -165,6 +165,8 @@ type Sim struct {
 	PoolReuse   int
 	SimStart    time.Time
 	SimEnd      time.Time
+	Leaked      int    // tasks still alive when the bubble was left
+	RootPanic   string // synctest complaint when leaving the bubble
 }
 
 // ------------------------------------------------------------------ PRNG
@@ -999,6 +1001,12 @@ func Run(t *testing.T, opt Options, main func(s *Sim)) (s *Sim) {
 			msg := fmt.Sprint(r)
 			if !strings.Contains(msg, "blocked goroutines remain") && !strings.Contains(msg, "deadlock") {
 				panic(r)
+			}
+			s.RootPanic = msg
+		}
+		for _, t := range s.tasks {
+			if !t.Done() {
+				s.Leaked++
 			}
 		}
 	}()
